@@ -484,15 +484,21 @@ Proof. revert pos. induction cs as [|c r IH]; intros pos; cbn; [reflexivity|]. n
 
 (* ================================================================== 8. tar framing *)
 Lemma zip_tar_roundtrip dirloc f : 0 <= dirloc <= zlen f ->
-  read_zip_tar (zip_to_tar dirloc f) = Ok (zdrop dirloc f, f).
+  exists ms, zip_to_tar dirloc f = Ok ms /\ read_zip_tar ms = Ok (zdrop dirloc f, f).
 Proof.
-  intros H. unfold zip_to_tar, ziptotar_members, ziptotar_sizes, ziptotar_seeks.
-  cbn [length seq map nth]. unfold tar_name, seek_pos, size_of. cbn [Z.eqb Pos.eqb].
-  unfold read_zip_tar.
+  intros H. unfold zip_to_tar, tar_member, ziptotar_members, ziptotar_sizes, ziptotar_offsets, ziptotar_lengths.
+  cbn [length seq map nth]. unfold tar_name, off_of, size_of. cbn [Z.eqb Pos.eqb].
+  rewrite zdrop_0.
+  rewrite (ztake_all (zlen f - dirloc)) by (rewrite zlen_zdrop by lia; lia).
+  rewrite (ztake_all (zlen f)) by lia.
+  replace (zlen (zdrop dirloc f) <? zlen f - dirloc) with false by (rewrite zlen_zdrop by lia; lia).
+  replace (zlen f <? zlen f) with false by lia.
+  cbn [collect bind].
+  rewrite (ztake_all (zlen f - dirloc)) by (rewrite zlen_zdrop by lia; lia).
+  rewrite (ztake_all (zlen f)) by lia.
+  eexists. split; [reflexivity|]. unfold read_zip_tar.
   replace (readziptar_first_bad tar_member_cd) with false by reflexivity.
-  replace (readziptar_second_bad tar_member_zip) with false by reflexivity.
-  rewrite zdrop_0. rewrite (ztake_all (zlen f - dirloc)) by (rewrite zlen_zdrop by lia; lia).
-  rewrite (ztake_all (zlen f)) by lia. reflexivity.
+  replace (readziptar_second_bad tar_member_zip) with false by reflexivity. reflexivity.
 Qed.
 
 (* ================================================================== 9. encoding negotiation *)
